@@ -80,7 +80,8 @@ def version_pool(rng, n):
 
 
 def run_updmon(binary, args, cache_dir, timeout=900):
-    env = {"XDG_CACHE_HOME": cache_dir, "HOME": cache_dir}
+    # a cache home several levels below anything that exists (a fresh account)
+    env = {"XDG_CACHE_HOME": os.path.join(cache_dir, "fresh", "home", ".cache"), "HOME": os.path.join(cache_dir, "fresh", "home")}
     # the skip variables must not leak from the harness environment
     r = core.run([binary] + args, env=env, timeout=timeout)
     return r
